@@ -4,7 +4,7 @@ TreeInv.tla states the invariant; the harness dumps the real tree (pointer field
 mmd_engine_parse_substring, and after every export; TLC evaluates TreeOK on every dump.  TokenEnum (generated from the headers) carries the
 compile-time relations between the published enum ranges and the tables that assume them.
 """
-import json, os, random
+import json, os, random, time
 from vlib import *  # noqa
 import docs
 sys.path.insert(0, os.path.join(VERIF, "specgen"))
@@ -55,7 +55,7 @@ def chain_level(chk, tier, exe):
     """TokenChain: the token.c primitives as a transition system.  (1) TLC: every forest reachable by <= MaxOps primitives over <= N tokens keeps the
     chain invariants; (2) one shortest history per reachable forest is replayed on real tokens and TokenChainTrace demands the real pointer graph to be
     the model's after every primitive."""
-    n, k = (4, 5) if tier == "quick" else (4, 6)
+    n, k = (4, 4) if tier == "quick" else (4, 6)
     mc = [("split", tlc.run("TokenChain", CHAIN_CFG % (4, 6, "TRUE", ""), workers=16, timeout=900, want_printed=False)),
           ("tails", tlc.run("TokenChain", CHAIN_CFG % (((4, 6) if tier == "quick" else (5, 7)) + ("FALSE", "TailOKRoots")), workers=16, timeout=1100, want_printed=False, heap="16g"))]
     for nm, r in mc:
@@ -67,7 +67,7 @@ def chain_level(chk, tier, exe):
     g = tlc.run("TokenChain", CHAIN_CFG % (n, k, "TRUE", "EmitAll"), workers=16, timeout=900)
     chk.cov["chain_t_gen"] = round(g.wall, 1)
     hs = g.printed
-    if len(hs) < 1000:
+    if len(hs) < 500:
         raise FrameworkError("TokenChain generated only %d histories" % len(hs))
     segs = []
     per = 200
@@ -105,55 +105,94 @@ def chain_level(chk, tier, exe):
         chk.report(key, "after %s in history %s the real tokens' pointer graph %s is not the forest TokenChain prescribes" % (ev["op"], json.dumps(h), json.dumps(ev["nodes"])), dict(history=h, script=chain_script(h), nodes=ev["nodes"]))
 
 
-PAIRS_CFG = "CONSTANTS MaxLen = %d\n Thr = %d\n Sim = %s\nINIT %s\nNEXT Next\nINVARIANTS %s\nCHECK_DEADLOCK FALSE\n"
+PAIRS_CFG = "CONSTANTS MaxLen = %d\n Thr = %d\n Sim = %s\n Table <- SynTable\nINIT %s\nNEXT Next\nINVARIANTS %s\nCHECK_DEADLOCK FALSE\n"
 PAIRS_INV = "CountAgrees StackOK MateSym Admissible WellNested Greedy FoldAgrees"
 
 
 def pairs_level(chk, tier, exe, seed):
     """TokenPairs: the pairing engine transcribed; (1) TLC checks symmetry, admissibility, non-crossing and the declarative 'nearest usable opener' characterisation on every
-    chain of <= 4 (thorough 5) tokens, with the large-stack shortcut always taken (Thr = 0) and never taken; (2) every chain of <= 3 (thorough 4), simulated longer ones and
-    chains that cross the real threshold of 1000 pending openers are run through the real engine and TokenPairsTrace demands the model's matching."""
+    chain of <= 4 (thorough 5) tokens over the synthetic table (every option combination), with the large-stack shortcut always taken (Thr = 0) and never taken, and on every
+    chain of <= 2 (thorough 3) tokens over the tables of real engines (RealPairings, generated from the running library); (2) every chain of <= 3 (thorough 4), simulated
+    longer ones and chains that cross the real threshold of 1000 pending openers are run through the real engine code and TokenPairsTrace demands the model's matching."""
+    sys.path.insert(0, os.path.join(VERIF, "specgen"))
+    import pairings
+    gd = os.path.join(BUILD, "specgen")
+    real = pairings.generate(gd)
     n = 4 if tier == "quick" else 5
-    for thr in ((0, 1000) if tier == "quick" else (0,)):
-        r = tlc.run("TokenPairs", PAIRS_CFG % (n, thr, "FALSE", "Init", PAIRS_INV), workers=16, timeout=1500, want_printed=False, heap="24g")
+    rn = 2 if tier == "quick" else 3
+    REAL = [("RealStd3", docs.STD, 3), ("RealStd4", docs.STD, 4), ("RealStd1", docs.STD, 1), ("RealCompat3", docs.COMPAT, 3), ("RealCompat4", docs.COMPAT, 4)]
+    jobs = [("syn-thr0", "TokenPairs", PAIRS_CFG % (n, 0, "FALSE", "Init", PAIRS_INV), {})]
+    jobs.append(("syn-thr1000", "TokenPairs", PAIRS_CFG % (n - 1, 1000, "FALSE", "Init", PAIRS_INV), {}))
+    for tab, x, which in REAL:
+        jobs.append((tab, "TokenPairsReal", (PAIRS_CFG % (rn, 0, "FALSE", "Init", PAIRS_INV)).replace("Table <- SynTable", "Table <- " + tab), dict(spec_dirs=(gd,))))
+    def mc(j):
+        return tlc.run(j[1], j[2], workers=4, timeout=1500, want_printed=False, heap="12g", **j[3])
+    with concurrent.futures.ThreadPoolExecutor(4) as ex:
+        outs = list(ex.map(mc, jobs))
+    for j, r in zip(jobs, outs):
         chk.cov["states"] += r.distinct; chk.cov["transitions"] += r.generated
-        chk.cov["pairs_mc_thr%d" % thr] = dict(maxlen=n, distinct=r.distinct, violated=r.violated)
+        chk.cov["pairs_mc_" + j[0]] = dict(distinct=r.distinct, violated=r.violated)
         if r.violated:
-            chk.report("pairs-model:" + r.violated, "TokenPairs: the pairing engine as transcribed violates %s :: %s" % (r.violated, r.cex[-1500:]), dict(tlc=r.cex[-6000:]))
+            chk.report("pairs-model:%s:%s" % (j[0], r.violated), "TokenPairs (%s): the pairing engine as transcribed violates %s :: %s" % (j[0], r.violated, r.cex[-1500:]), dict(tlc=r.cex[-6000:]))
+    def spec(ts): return "".join("%d:%d:%d:%d:%d;" % (t["ty"], t["len"], 1 if t["adj"] else 0, 1 if t["co"] else 0, 1 if t["cc"] else 0) for t in ts)
+    # behaviours: synthetic table
     g = tlc.run("TokenPairs", PAIRS_CFG % (3 if tier == "quick" else 4, 1000, "FALSE", "Init", "Emit"), workers=16, timeout=1500, heap="16g")
     gs = tlc.run("TokenPairs", PAIRS_CFG % (9, 1000, "TRUE", "Init", "Emit"), workers=4, simulate=(1500 if tier == "quick" else 20000), depth=12, seed=seed, timeout=900)
-    gd = tlc.run("TokenPairs", PAIRS_CFG % (1, 1000, "FALSE", "InitDeep", "EmitDeep"), workers=4, timeout=900)
-    chains = uniq([c["toks"] for c in g.printed + gs.printed + gd.printed])
-    if len(chains) < 5000 or len(gd.printed) < 40: raise FrameworkError("TokenPairs generated %d chains (%d deep)" % (len(chains), len(gd.printed)))
-    def spec(ts): return "".join("%d:%d:%d:%d:%d;" % (t["ty"], t["len"], 1 if t["adj"] else 0, 1 if t["co"] else 0, 1 if t["cc"] else 0) for t in ts)
-    per = 400; segs = []
-    for i in range(0, len(chains), per):
-        segs.append(["seg\tpairs"] + [line("pairs", spec(ts)) for ts in chains[i:i + per]])
+    gd2 = tlc.run("TokenPairs", PAIRS_CFG % (1, 1000, "FALSE", "InitDeep", "EmitDeep"), workers=4, timeout=900)
+    deep = [c["toks"] for c in gd2.printed]
+    deep.sort(key=lambda ts: (len(ts), ts[0]["ty"], len(ts[-1]), ts[-1]["ty"]))
+    if tier == "quick": deep = deep[::3]
+    short = uniq([c["toks"] for c in g.printed + gs.printed])
+    # the long chains are spread over the sequence so that the parallel validation chunks share them
+    step = max(1, len(short) // (len(deep) + 1)); allc = []
+    for i, ts in enumerate(short):
+        allc.append(ts)
+        if i % step == step - 1 and deep: allc.append(deep.pop())
+    allc += deep
+    fam = [("SynTable", "-", allc)]
+    if len(fam[0][2]) < 5000 or len(gd2.printed) < 40: raise FrameworkError("TokenPairs generated %d chains (%d deep)" % (len(fam[0][2]), len(gd2.printed)))
+    # behaviours: real tables (every chain of <= 2, simulated up to 7)
+    def realgen(a):
+        tab, x, which = a
+        cfgr = lambda n2, sim: (PAIRS_CFG % (n2, 1000, sim, "Init", "Emit")).replace("Table <- SynTable", "Table <- " + tab)
+        gr = tlc.run("TokenPairsReal", cfgr(2, "FALSE"), workers=3, timeout=900, spec_dirs=(gd,))
+        grs = tlc.run("TokenPairsReal", cfgr(7, "TRUE"), workers=2, simulate=(800 if tier == "quick" else 12000), depth=10, seed=seed, timeout=900, spec_dirs=(gd,))
+        return (tab, "real:%d:%d" % (x, which), uniq([c["toks"] for c in gr.printed + grs.printed]))
+    with concurrent.futures.ThreadPoolExecutor(5) as ex:
+        fam += list(ex.map(realgen, REAL))
+    per = 400; segs = []; owner = []
+    for tab, targ, chains in fam:
+        for i in range(0, len(chains), per):
+            segs.append(["seg\tpairs"] + [line("pairs", spec(ts), targ) for ts in chains[i:i + per]]); owner.append((tab, chains[i:i + per]))
     res = run_harness(exe, segs, timeout=60)
-    trace = []
-    for i, r in enumerate(res):
-        trace.append(dict(e="reset", seg=i))
+    traces = {}
+    for (tab, chains), seg, r in zip(owner, segs, res):
+        tr = traces.setdefault(tab, [])
+        tr.append(dict(e="reset"))
         evs = [e for e in r["events"] if e.get("e") == "pairs"]
-        for ts, e in zip(chains[i * per:(i + 1) * per], evs):
-            trace.append(dict(e="pairs", toks=ts, mate=e["mate"], depth=e["depth"], conts=e["conts"], stack=e["stack"], table=e["table"]))
+        for ts, e in zip(chains, evs):
+            tr.append(dict(e="pairs", toks=ts, mate=e["mate"], depth=e["depth"], conts=e["conts"], stack=e["stack"], table=e["table"]))
         if r["status"] != "ok":
             kd, f = san_signature(r.get("san", ""))
-            chk.report("pairs:%s:%s:%s" % (r["status"], kd, f), "the pairing engine on a model-generated chain ended the process :: %s" % r.get("san", "")[:300].replace("\n", " | "), dict(script=[x[:300] for x in segs[i][-5:]]))
-    # the deep chains are long: validate them apart from the short ones so that the JSON lines stay small for the bulk
-    acc, rej, st, info = tlc.validate_trace("TokenPairsTrace", os.path.join(VERIF, "spec", "TokenPairsTrace.cfg"), trace, independent=True, max_rejects=8, timeout=1200, parallel=12)
-    chk.cov["states"] += st; chk.cov["transitions"] += st
-    chk.add("traces_validated_against_impl", len(chains) - len(rej))
-    chk.cov["pairs_chains"] = len(chains); chk.cov["pairs_deep_chains"] = len(gd.printed)
-    chk.sample(dict(pairs_chain=spec(chains[len(chains) // 3])))
-    seen = set()
-    for seg, idx in rej:
-        ev = seg[idx]; deep = len(ev["toks"]) > 900
-        key = "pairs:%s" % ("deep-stack" if deep else "matching")
-        if key in seen: continue
-        seen.add(key)
-        sp = spec(ev["toks"]) if not deep else ("%d x %s + %s" % (len(ev["toks"]) - 5, spec(ev["toks"][:1]), spec(ev["toks"][-5:])))
-        chk.report(key, "the real pairing engine's result on chain %s (mate %s, depth %s, containers %s) is not the matching TokenPairs prescribes" % (sp, ev["mate"][-8:], ev["depth"][-8:], ev["conts"][-4:]),
-                   dict(chain=spec(ev["toks"]), mate=ev["mate"], depth=ev["depth"], conts=ev["conts"]))
+            chk.report("pairs:%s:%s:%s" % (r["status"], kd, f), "the pairing engine on a model-generated chain (%s) ended the process :: %s" % (tab, r.get("san", "")[:300].replace("\n", " | ")), dict(script=[x2[:300] for x2 in seg[-5:]]))
+    seen = set(); nch = 0
+    for tab, targ, chains in fam:
+        nch += len(chains)
+        cfgt = open(os.path.join(VERIF, "spec", "TokenPairsTrace.cfg")).read().replace("Table <- SynTable", "Table <- " + tab)
+        acc, rej, st, info = tlc.validate_trace("TokenPairsTrace" if tab == "SynTable" else "TokenPairsRealTrace", cfgt, traces.get(tab, []), independent=True, max_rejects=8, timeout=1200, parallel=8, spec_dirs=(gd,))
+        chk.cov["states"] += st; chk.cov["transitions"] += st
+        chk.add("traces_validated_against_impl", len(chains) - len(rej))
+        chk.cov["pairs_chains_" + tab] = len(chains)
+        for seg, idx in rej:
+            ev = seg[idx]; deep = len(ev["toks"]) > 900
+            key = "pairs:%s%s" % ("deep-stack" if deep else "matching", "" if tab == "SynTable" else ":" + tab)
+            if key in seen: continue
+            seen.add(key)
+            sp = spec(ev["toks"]) if not deep else ("%d x %s + %s" % (len(ev["toks"]) - 5, spec(ev["toks"][:1]), spec(ev["toks"][-5:])))
+            chk.report(key, "the real pairing engine's result on chain %s with table %s (mate %s, depth %s, containers %s; table as built %s) is not the matching TokenPairs prescribes" % (sp, tab, ev["mate"][-8:], ev["depth"][-8:], ev["conts"][-4:], str(ev["table"])[:160]),
+                       dict(chain=spec(ev["toks"]), table=tab, mate=ev["mate"], depth=ev["depth"], conts=ev["conts"], real_table=ev["table"]))
+    chk.cov["pairs_deep_chains"] = len([1 for ts in fam[0][2] if len(ts) > 900])
+    chk.sample(dict(pairs_chain=spec(fam[0][2][len(fam[0][2]) // 3]), real_table_RealStd4=real["RealStd4"]))
 
 
 def run(tier, seed):
@@ -169,8 +208,9 @@ def run(tier, seed):
         problems.append(("enum", en.cex[:1500]))
     chk.cov["states"] = max(en.distinct, 1); chk.cov["transitions"] = max(en.generated, 1)
     exe = build.build_harness("asan")
-    chain_level(chk, tier, exe)
-    pairs_level(chk, tier, exe, seed)
+    t0 = time.time(); chain_level(chk, tier, exe); chk.cov["t_chain_level"] = round(time.time() - t0, 1)
+    t0 = time.time(); pairs_level(chk, tier, exe, seed); chk.cov["t_pairs_level"] = round(time.time() - t0, 1)
+    t0 = time.time()
     corp = docs.corpus()
     table, seqs, seqs3, sim, seqs4 = c02.gen_docs("quick", seed)
     dl = [(n, corp[n]) for n in sorted(corp)] + [("pool:" + k, v.encode()) for k, v in docs.POOL.items()]
@@ -211,6 +251,7 @@ def run(tier, seed):
             s.append(line("e_free", 0))
         segs.append(s)
     res = run_harness(exe, segs, timeout=120)
+    chk.cov["t_tree_harness"] = round(time.time() - t0, 1); t0 = time.time()
     trace = []; ndump = 0; nnodes = 0
     for si, (seg, r) in enumerate(zip(segs, res)):
         trace.append(dict(e="reset"))
@@ -234,13 +275,14 @@ def run(tier, seed):
         return tlc.validate_trace("TreeInv", os.path.join(VERIF, "spec", "TreeInv.cfg"), c, max_rejects=60, timeout=1500, heap="6g", independent=True)
     with concurrent.futures.ThreadPoolExecutor(4) as ex:
         outs = list(ex.map(val, chunks))
+    chk.cov["t_tree_validate"] = round(time.time() - t0, 1)
     acc = sum(o[0] for o in outs); rejected = sum((o[1] for o in outs), []); states = sum(o[2] for o in outs)
     chk.add("traces_validated_against_impl", ndump - len(rejected))
     chk.cov["states"] += states; chk.cov["transitions"] += states
     chk.cov["evaluations"] = ndump; chk.cov["distinct_nontrivial"] = len(cases_)
     chk.cov["tree_dumps"] = ndump; chk.cov["tree_nodes_checked"] = nnodes
-    chk.cov["rule"] = ("primitive level: every forest TokenChain reaches with <= %d token.c primitives over <= 4 tokens, one shortest history each, replayed on real tokens and compared field by field; tree level: cases = repository corpus + pool documents x %d extension sets x %d formats, plus TLC-generated line sequences (all of length <= 2, sampled length 3, simulated 12-line) with a random "
-                       "format, plus 3 shapes of every ordered pair of 27 inline delimiters; pool documents also through the packaged formats; each case dumps the tree after parse, after each (parse+)export and after three mmd_engine_parse_substring calls on line boundaries" % (5 if tier == "quick" else 6, 4 if tier == "quick" else len(EXTS), 4 if tier == "quick" else 7))
+    chk.cov["rule"] = ("primitive level: every forest TokenChain reaches with <= %d token.c primitives over <= 4 tokens, one shortest history each, replayed on real tokens and compared field by field; pairing level: see coverage keys pairs_*; tree level: cases = repository corpus + pool documents x %d extension sets x %d formats, plus TLC-generated line sequences (all of length <= 2, sampled length 3, simulated 12-line) with a random "
+                       "format, plus 3 shapes of every ordered pair of 27 inline delimiters; pool documents also through the packaged formats; each case dumps the tree after parse, after each (parse+)export and after three mmd_engine_parse_substring calls on line boundaries" % (4 if tier == "quick" else 6, 4 if tier == "quick" else len(EXTS), 4 if tier == "quick" else 7))
     chk.sample(dict(case=cases_[0][0], ext=cases_[0][2], formats=cases_[0][3])); chk.sample(dict(dump=trace[1]["nodes"][:6], when=trace[1]["when"]))
     seen = {}
     for seg, idx in rejected:
